@@ -36,10 +36,12 @@ func specCFG() *ref.CFG {
 
 func mutantSeeds(tier string) []gram.Seed {
 	seeds := gram.Seeds()
+	// keywords as string literals, some spelled like production / regular-definition names
+	kw := gram.Seed{Name: "keywords", Text: "a : 'a' ;\n_d : '0'-'9' ;\nn : _d { _d } ;\nS : \"SELECT\" a \"FROM\" T | \"_x\" n | \"X\" ;\nT : a | T \"Comma\" a ;\n"}
 	if tier != "thorough" {
-		return seeds[:4]
+		return append(append([]gram.Seed{}, seeds[:4]...), kw)
 	}
-	return seeds
+	return append(append([]gram.Seed{}, seeds...), kw)
 }
 
 func classifyMutants(tier string) []classifiedMutant {
